@@ -128,18 +128,7 @@ def run(ctx, rep):
                 rep.ob(okx, 'R09.2', 'symbols::%s::%s' % (im['self_ty'], it['name']), 'lookup order',
                        'every name lookup scans scopes innermost-first and a scope latest-first', 'src/symbols.rs:%d' % it['line'])
     # R09.3 visibility
-    sr = F.fn('symbols::SymbolTable::resolve')
-    consulted = []
-    for b, t in sr.calls():
-        if callee_name(t) == 'symbols::Context::resolve':
-            a = str(sym(sr, t['args'][0]))
-            if 'current_context' in a:
-                consulted.append('current')
-            elif 'index' in a and "('int', 0)" in a and 'contexts' in a:
-                consulted.append('global')
-            else:
-                consulted.append('other:' + a[:80])
-    rep.ob(sorted(consulted) == ['current', 'global'], 'R09.3', sr.path, 'contexts consulted', 'exactly the current context and contexts[0]: %s' % consulted, sr.loc())
+    check_visibility(ctx, rep, 'R09.3')
 
     # R09.4 use sites
     provbad = [v for v in R['violations'] if v['oblig'] in ('O8', 'O8-scope') and 'symbol' in v['text']]
@@ -191,3 +180,22 @@ def run(ctx, rep):
         okp = any(render(n['iter']).endswith('parameters') and find_all(n['body'], lambda x: x.get('k') == 'mcall' and x['method'] == 'define') for n in fl)
         ok = ok and okp
     rep.ob(ok, 'R09.5', 'compiler::Compiler::compile_expression', 'Expr::Function order', 'define(name); new_context(); define(parameters in order); body; leave_context()', 'src/compiler.rs')
+
+
+def check_visibility(ctx, rep, rule):
+    """SymbolTable::resolve consults exactly the current context and the global one: a Local symbol therefore always
+    belongs to the frame of the function being compiled (its index is below that frame's size)"""
+    F = ctx.facts()
+    sr = F.fn('symbols::SymbolTable::resolve')
+    consulted = []
+    for b, t in sr.calls():
+        if callee_name(t) == 'symbols::Context::resolve':
+            a = str(sym(sr, t['args'][0]))
+            if 'current_context' in a:
+                consulted.append('current')
+            elif 'index' in a and "('int', 0)" in a and 'contexts' in a:
+                consulted.append('global')
+            else:
+                consulted.append('other:' + a[:80])
+    rep.ob(sorted(consulted) == ['current', 'global'], rule, sr.path, 'contexts consulted', 'exactly the current context and contexts[0]: %s' % consulted, sr.loc())
+
